@@ -2,7 +2,7 @@
 macro_rules! rec_total {
     ($name:ident, $n:expr) => {
         #[kani::proof]
-        #[kani::unwind(40)]
+        #[kani::unwind(24)]
         fn $name() {
             let mut b = static_bytes::<$n>();
             let r = DtlsRecord::decode(&mut b);
